@@ -397,6 +397,27 @@ class OopStateEngine(EngineBase):
         probe.__wrapped__ = original
         TidesBase.orbit_spin_changed = probe
 
+    def pre_checks(self, tier, base_seed, workers):
+        out = {'harness_errors': [], 'results': [], 'summary': {}}
+        if tier == 'quick':
+            return out
+        from . import pairs
+        from simkit.runner import run_jobs
+        plans = pairs.pair_plans(self.prop, base_seed)
+        res = run_jobs(self, [('plan', p) for p in plans], workers=workers, job_cap_s=600.0)
+        n_ok = 0
+        for idx, status, item in res:
+            if status == 'ok':
+                n_ok += 1
+                item['seed'] = None
+                out['results'].append(item)
+            else:
+                out['harness_errors'].append('pair sweep plan %d: %s: %s' % (idx, status, str(item)[-600:]))
+        out['summary']['ordered_pair_sweep'] = {'families': len(pairs.FAMILIES), 'plans_run': n_ok,
+                                                'note': 'after a complete placement, every ordered pair (operation kind A, then B) of the '
+                                                        'generator\'s operation kinds, once per configuration family, seeded values'}
+        return out
+
     def tier_config(self, tier):
         if self.prop == 'C17':
             if tier == 'quick':
